@@ -415,7 +415,7 @@ func runCorpusTL1(c *core.Ctx, prop string, cp Corpus, k, kmut, kjson, kre, kmut
 		}
 	}
 	res, err := c.TLC(core.TLCOpts{Module: "MC_Codec", Cfg: "MC_Codec.cfg", Workers: 8, Timeout: 20 * time.Minute,
-		Files:  map[string][]byte{"SchemaData.tla": b.SchemaModule(tops)},
+		Files:  map[string][]byte{"SchemaData.tla": b.SchemaModuleX(tops, extraVals)},
 		OnEmit: onEmit,
 		Consts: map[string]string{"SANITY": tlaBool(cp.Sanity), "MAXLEN": "2", "LONGSTR": "{}", "K": strconv.Itoa(k), "KMUT": strconv.Itoa(kmut), "KJSON": strconv.Itoa(kjson), "KRE": strconv.Itoa(kre), "KMUT2": strconv.Itoa(kmut2), "KFN": strconv.Itoa(kfn), "EDGES": tlaBool(prop == "C09")}})
 	if err != nil {
@@ -468,6 +468,9 @@ func tlaBool(b bool) string {
 	return "FALSE"
 }
 
+// extraVals: additional leaf values per primitive type for the current run (C34)
+var extraVals map[string][][]int
+
 // which finding classes decide which property
 var classOf = map[string]map[string]bool{
 	"C01": {"tl1": true},
@@ -475,6 +478,7 @@ var classOf = map[string]map[string]bool{
 	"C03": {"tl2": true},
 	"C04": {"conv": true},
 	"C05": {"json": true},
+	"C34": {"json": true, "bytesvar": true},
 	"C06": {"jsonalt": true},
 	"C07": {"fn": true},
 	"C08": {"total": true},
